@@ -59,6 +59,10 @@ ObsDefects(e) ==
     \* what the stack does for an input is done when the call returns (C15: the internal handlers have finished before
     \* publication returns): nothing is written to a connection afterwards
     \cup (IF e.late = 0 THEN {} ELSE {"late"})
+    \* C11: the use-case data sets read from node management in earlier steps have not changed
+    \cup (IF e.st.ucsnapok THEN {} ELSE {"ucsnap"})
+    \* C03 / C07: what the device announces as readable / writable is what was configured (the write gate uses the latter)
+    \cup (IF e.st.announceok THEN {} ELSE {"announce"})
     \cup (IF \A p \in Peers : NoDup(ObsOutSeq(e, p)) THEN {} ELSE {"dupout"})
     \cup (IF NoDup(e.ev) THEN {} ELSE {"dupev"})
     \cup (IF NoDup(e.cbf) THEN {} ELSE {"dupcb"})
